@@ -1,7 +1,7 @@
 // C02: the two-queue existence cache and the Bloom filter cache must be
 // observationally transparent.
 //
-// Part 1 (strata seq, seq-enum, seq-enum-silentstop, seq-wfault): a cached stack is
+// Part 1 (strata seq, seq-enum, seq-buildrace, seq-wfault): a cached stack is
 // driven in lock-step with an uncached twin; every answer is compared with the
 // twin's and with a direct query of the stack's own backing store. Enumeration
 // faults (error entry / cancellation at every position) are injected into the
@@ -38,10 +38,10 @@ func main() {
 
 func run(c *vlib.Ctx) {
 	c.Rule("seq*: histories of 5-70 ops {Put,PutMany,Delete,Has,Get,GetSize,View,AllKeysChan[WithErr],Rebuild,BloomActive} over 8 payloads x 6 CID forms (+cid.Undef reads) on {2Q 2..64 | Bloom 1..4096 B x 1..7 hashes | both} x WriteThrough x NoPrefix x Viewer, 0-14 pre-existing blocks, in lock-step with an uncached twin; " +
-		"seq-enum*: every initial build / Rebuild gets an enumeration fault (error entry, ctx cancelled while the datastore keeps delivering, ctx cancelled and the datastore stops silently) at a position 0..n; seq-wfault: datastore Put/Delete/Batch.Put/Commit fail before or after applying (a prefix), datastore reads fail once; " +
-		"conc-*: 3-8 goroutines x 20-60 ops on 2-5 keys, datastore pauses 0-200us around its map operation, one goroutine looping Rebuild, half the Bloom runs start while the initial build enumerates; conc-hammer: read-only keys, 3-7 spinning readers against a tight Rebuild loop. " +
+		"seq-enum: every initial build / Rebuild gets an enumeration fault (error entry, ctx cancelled while the datastore keeps delivering, ctx cancelled and the datastore stops silently) at a position 0..n; seq-buildrace: the asynchronous initial build and a Rebuild are stepped against each other with gates inside the datastore enumeration (Rebuild called while the initial build is held mid-enumeration, initial build released first, sweeps of every key in each phase, optional error entry in Rebuild's enumeration); seq-wfault: datastore Put/Delete/Batch.Put/Commit fail before or after applying (a prefix), datastore reads fail once; " +
+		"conc-*: 3-8 goroutines x 20-60 ops on 2-5 keys, datastore pauses 0-200us around its map operation, one goroutine looping Rebuild, half the Bloom runs start while the initial build enumerates and half of those start the Rebuild loop during that (slowed) enumeration, 1-2 pre-existing never-written sentinel keys are read throughout; conc-hammer: read-only keys, 3-7 spinning readers against a tight Rebuild loop. " +
 		"distinct = FNV of config+op list (seq) or of the observed call/return interleaving (conc). " +
-		"non-trivial = (seq) a key was answered by the cache, then its presence was flipped by a write, then it was read again; or an enumeration fault fired strictly inside the enumeration (0<pos<n); or a datastore write/read fault fired; (conc) two overlapping operations on one key of which one is a write; (hammer) >= 10 reads overlapped a Rebuild.")
+		"non-trivial = (seq) a key was answered by the cache, then its presence was flipped by a write, then it was read again; or an enumeration fault fired strictly inside the enumeration (0<pos<n); or (buildrace) every key was swept while the initial build had finished and a Rebuild was inside its enumeration; or a datastore write/read fault fired; (conc) two overlapping operations on one key of which one is a write; (hammer) >= 10 reads overlapped a Rebuild.")
 
 	// VERIF_C02_STRATA (development aid only): comma-separated subset of strata.
 	only := os.Getenv("VERIF_C02_STRATA")
@@ -53,10 +53,10 @@ func run(c *vlib.Ctx) {
 	}
 	// (order = order of the evidence samples: one concurrent and two faulted strata first)
 	cases("conc-bloom", c.N(200, 5000), concCase(concMode{name: "conc-bloom", bloom: true}))
-	cases("seq-enum", c.N(400, 8000), seqCase(seqMode{enumFaults: true}))
+	cases("seq-buildrace", c.N(64, 1500), buildRaceCase)
+	cases("seq-enum", c.N(480, 9000), seqCase(seqMode{enumFaults: true, silentStop: true}))
 	cases("seq-wfault", c.N(280, 6000), seqCase(seqMode{writeFaults: true}))
 	cases("seq", c.N(720, 16000), seqCase(seqMode{}))
-	cases("seq-enum-silentstop", c.N(120, 2000), seqCase(seqMode{enumFaults: true, silentStop: true}))
 	cases("conc-tq", c.N(80, 2000), concCase(concMode{name: "conc-tq"}))
 	cases("conc-hammer", c.N(24, 240), concCase(concMode{name: "conc-hammer", bloom: true, hammer: true}))
 	cases("config", 6, configCase)
